@@ -201,8 +201,12 @@ def _probe_find_skips(xp, fp):
     lt = fp.LINK_TYPES
     skips = []
     for k, cls in xp.ENTITIES.items():
-        stub = type("P", (), {})()
-        for c in set(lt.values()) | set(EXT_LISTS):
+        # a real Project object without __init__ (`find` may call helper methods of its class); collections that
+        # are properties of the class are shadowed by plain attributes
+        names = set(lt.values()) | set(EXT_LISTS)
+        stub = object.__new__(type("P", (fp.Project,), {
+            c: None for c in names if isinstance(getattr(fp.Project, c, None), property)}))
+        for c in names:
             setattr(stub, c, [])
         o = _make(cls, "zz_probe", "u")
         getattr(stub, cls._project_list).append(o)
